@@ -227,6 +227,7 @@ def refFinish (fx : Fixes) (L : Libs) (verify : Bool) (b : Reader.Bytes) (c : Co
   else if hr.1.type ≠ 0 then none
   else if (!sizesValid hr.1 || decide (hr.1.word0 < 0) || decide (hr.1.word0 > st.valuesRemaining)) = true then none
   else if crcBad verify hr.1.crc (slice b ((st.dataStart + st.currentPage).toNat + hr.2) hr.1.compressed.toNat) = true then none
+  else if hr.1.word0 = 0 then some (⟨[], [], []⟩, hr.2, hr.1.compressed.toNat)     -- F63: a page without values
   else stdPath fx L c st.dict hr (slice b ((st.dataStart + st.currentPage).toNat + hr.2) hr.1.compressed.toNat)
 
 /-- zero-copy view = copy: when the view branch is taken (repaired code), what it hands out is
@@ -295,6 +296,9 @@ theorem finishDataPage_ref (fx : Fixes) (hv : fx.viewBound = true) (L : Libs) (v
             (slice b ((st.dataStart + st.currentPage).toNat + hr.2) hr.1.compressed.toNat) = true
         · rw [if_pos hcrc, if_pos hcrc]; rfl
         · rw [if_neg hcrc, if_neg hcrc]
+          by_cases hemp : hr.1.word0 = 0
+          · rw [if_pos hemp, if_pos hemp]; rfl
+          rw [if_neg hemp, if_neg hemp]
           by_cases hview : takesView fx mode c hr.1 = true
           · rw [if_pos hview]
             obtain ⟨d, hd1, hd2⟩ := view_eq_std fx hv L mode b c st.dict hr _ hcol hsz (by omega) hview
